@@ -2,6 +2,7 @@ import Driver.C01
 import Driver.C06
 import Driver.C07
 import Driver.C08
+import Driver.C09
 import Driver.C11
 import Driver.C13
 import Driver.C18
@@ -13,6 +14,7 @@ def dispatch (p : String) (rest : List String) : String :=
   | "C06" => C06.handle rest
   | "C07" => C07.handle rest
   | "C08" => C08.handle rest
+  | "C09" => C09.handle rest
   | "C11" => C11.handle rest
   | "C13" => C13.handle rest
   | "C18" => C18.handle rest
